@@ -4,7 +4,9 @@ theorems : lean/GoldModel/Props/C06.lean — ladder_spec (the operator ladder re
            body_parser.rs equals the property's ladder and is the one the model uses),
            foldBin_left_assoc (every level associates to the left, unboundedly),
            operator_pairs (all 23 x 23 operator pairs, kernel-evaluated on the model:
-           `a op1 b op2 c` binds by precedence and associates to the left), range lemmas.
+           `a op1 b op2 c` binds by precedence and associates to the left), range lemmas;
+           lean/GoldModel/Props/C06Expr.lean — expr_roundtrip / level_roundtrip / expr_roundtrip_memo: parse_expr (print e ++ k)
+           = (tree e, k, no diagnostics) for every well-formed expression e of the full expression grammar (unbounded).
 tie      : E5 (operator ladder) regenerated from the source; `parse` correspondence.
 oracle   : grammar-directed generator that emits text + expected tree (vlib/gen/wf.py):
            parse_gold(lex(text)) must have zero diagnostics and the expected shape; every
@@ -70,8 +72,10 @@ def run(ctx):
         "the generator vlib/gen/wf.py IS the statement of 'the tree the grammar prescribes' for the oracle (a second, independent description of the grammar)",
     ]
     ctx.assumptions += [
-        "PARTIAL: the general round-trip theorem parse(print p) = expected p is not proved; proved are the ladder, left-association of the fold, and the "
-        "complete finite table of operator pairs on the model; everything else is established by the generator oracle on the implementation",
+        "PARTIAL: the round-trip theorem parse(print p) = expected p is proved for EXPRESSIONS (Props/C06Expr: the full grammar of parse_expr — atoms, "
+        "parentheses, 23 binary operators, prefix/postfix operators, member-access chains with calls and indexing, set literals; no comments between the "
+        "tokens), not for statements and declarations; also proved are the ladder, left-association of the fold, and the complete finite table of "
+        "operator pairs on the model; everything else is established by the generator oracle on the implementation",
     ]
     if ctx.replay:
         return replay(ctx)
